@@ -214,8 +214,6 @@ structure World where
   nextId : Nat := 0
   /-- Lightning answers for the current operation -/
   script : List LnAns := []
-  /-- labels of the storage / client calls performed (reset per operation) -/
-  trace : List String := []
   deriving Repr, Inhabited
 
 /-! ## bucket primitives (bbolt: one value per key) -/
@@ -776,15 +774,12 @@ def execDb (wi : Nat) (w : World) : (e : Eff α) → Option (World × α)
 
 /-- Perform one effect as wallet `wi`. -/
 def exec (wi : Nat) (w : World) (e : Eff α) : World × α :=
-  let w1 := match e.label with
-    | some l => { w with trace := w.trace ++ [l] }
-    | none => w
-  match execDb wi w1 e with
+  match execDb wi w e with
   | some r => r
   | none =>
-    match execClient w1 e with
+    match execClient w e with
     | some r => r
-    | none => (w1, e.dflt)
+    | none => (w, e.dflt)
 
 /-! ## running programs -/
 
@@ -805,6 +800,37 @@ def Prog.run (wi : Nat) : Prog α → World → World × α
   | .loop _ n i body k, w =>
     let r := loopRun (fun st w' => (body st).run wi w') n i w
     (k r.2).run wi r.1
+
+def loopRunL {σ ε : Type} (step : σ → World → World × Except ε (σ × Bool) × List String) :
+    Nat → σ → World → World × Except ε σ × List String
+  | 0, st, w => (w, .ok st, [])
+  | n + 1, st, w =>
+    match step st w with
+    | (w', .ok (st', true), l) => let r := loopRunL step n st' w'; (r.1, r.2.1, l ++ r.2.2)
+    | (w', .ok (st', false), l) => (w', .ok st', l)
+    | (w', .error e, l) => (w', .error e, l)
+
+/-- `Prog.run` together with the names of the storage / client calls it makes, in order (what the harness
+    records at the storage proxy and at the transport). -/
+def Prog.runL (wi : Nat) : Prog α → World → World × α × List String
+  | .ret a, w => (w, a, [])
+  | .eff e k, w =>
+    let r := (k (exec wi w e).2).runL wi (exec wi w e).1
+    (r.1, r.2.1, (match e.label with | some l => [l] | none => []) ++ r.2.2)
+  | .sub _ b k, w =>
+    let rb := b.runL wi w
+    let r := (k rb.2.1).runL wi rb.1
+    (r.1, r.2.1, rb.2.2 ++ r.2.2)
+  | .block _ _ run b d k, w =>
+    if run then
+      let rb := b.runL wi w
+      let r := (k rb.2.1).runL wi rb.1
+      (r.1, r.2.1, rb.2.2 ++ r.2.2)
+    else (k d).runL wi w
+  | .loop _ n i body k, w =>
+    let rl := loopRunL (fun st w' => (body st).runL wi w') n i w
+    let r := (k rl.2.1).runL wi rl.1
+    (r.1, r.2.1, rl.2.2 ++ r.2.2)
 
 /-- Budgeted step function of a loop: `none` = the wallet died inside. -/
 def loopRunN {σ ε : Type} (step : σ → Nat → World → World × Option (Except ε (σ × Bool)) × Nat) :
@@ -912,6 +938,8 @@ structure Sel where
   toSend : Select.Mint → List WProof → UInt64 → Bool → Option (List WProof)
   /-- `splitWalletTarget`: amounts held at the mint, amount to split -/
   split : List UInt64 → UInt64 → List UInt64
+  /-- the float arithmetic of `swapProofs` (`uint64(float64(proofsAmount) * 0.99 * …)` after `tries` rounds) -/
+  swapAmount : UInt64 → Nat → UInt64
 
 structure Cx where
   wi : Nat
@@ -1257,7 +1285,7 @@ def swapProofs (cx : Cx) (proofs : List WProof) (from_ : MemMint) (to : MemMint)
   let dq : MMintQ := default
   let dl : MMeltQ := default
   let r ← loopM (0, dq, dl) 100 (0, dq, dl) (fun st => do
-    let mintAmountRequest := swapAmountAt proofsAmt st.1 - fees
+    let mintAmountRequest := cx.sel.swapAmount proofsAmt st.1 - fees
     let mq ← subM "RequestMint" (requestMint mintAmountRequest to.mint)
     let lq ← cTry (.cMeltQuote from_.mint (.mq to.mint mq.id mintAmountRequest))
     if lq.amount + lq.feeReserve + fees > proofsAmt then pure ((st.1 + 1, mq, lq), true)
@@ -1587,7 +1615,7 @@ def resOf : Except WErr UInt64 → Res
 
 /-- One operation of a sequential, fault-free history. -/
 def applyOp (sel : Sel) (w : World) (op : Op) : World × Res :=
-  let w0 := { (opPre w op) with script := opScript op, trace := [] }
+  let w0 := { (opPre w op) with script := opScript op }
   match opProg sel w0 op with
   | none => (w0, .ok 0)
   | some (wi, p) =>
@@ -1599,7 +1627,7 @@ def runHist (sel : Sel) (w : World) (ops : List Op) : World := ops.foldl (fun ac
 /-- The operation is cut after `n` calls: the wallet process dies before call number `n` (its memory is lost;
     a later `reopen` starts it again).  `none` result: it died. -/
 def applyOpN (sel : Sel) (w : World) (op : Op) (n : Nat) : World × Option Res :=
-  let w0 := { (opPre w op) with script := opScript op, trace := [] }
+  let w0 := { (opPre w op) with script := opScript op }
   match opProg sel w0 op with
   | none => (w0, some (.ok 0))
   | some (wi, p) =>
@@ -1607,8 +1635,15 @@ def applyOpN (sel : Sel) (w : World) (op : Op) (n : Nat) : World × Option Res :
     | (w', some r, _) => (w', some (resOf r))
     | (w', none, _) => (w', none)
 
+/-- The calls the operation makes when it runs to the end (the driver's answer to the harness's trace). -/
+def opLabels (sel : Sel) (w : World) (op : Op) : List String :=
+  let w0 := { (opPre w op) with script := opScript op }
+  match opProg sel w0 op with
+  | none => []
+  | some (wi, p) => (p.run.runL wi w0).2.2
+
 /-- Number of calls the operation makes when it runs to the end. -/
-def opCalls (sel : Sel) (w : World) (op : Op) : Nat := (applyOp sel w op).1.trace.length
+def opCalls (sel : Sel) (w : World) (op : Op) : Nat := (opLabels sel w op).length
 
 /-! ## initial worlds -/
 
@@ -1635,6 +1670,7 @@ def selStable : Sel where
     | .ok chosen => some (chosen.filterMap (fun q => ps[q.uid]?))
     | _ => none
   split := Select.splitWalletTarget
+  swapAmount := swapAmountAt
 
 /-- selection replaying the implementation's tie-breaking: `chosen` = the secrets it picked, in order -/
 def selOracle (chosen : List SId) : Sel where
@@ -1645,5 +1681,6 @@ def selOracle (chosen : List SId) : Sel where
     | .ok sel => some (sel.filterMap (fun q => ps[q.uid]?))
     | _ => none
   split := Select.splitWalletTarget
+  swapAmount := swapAmountAt
 
 end Gonuts.Model.WalletBooks
